@@ -358,7 +358,37 @@ type c18Spec struct {
 	Tasks [][]COp
 }
 
-func c18Specs() []c18Spec {
+// c18Pairs: every unordered pair of operations by two sessions holding
+// handles on the same directory, and on the same file.
+func c18Pairs() []c18Spec {
+	w := func(h, nw string, names ...string) COp { return COp{Kind: "walk", H: h, New: nw, Names: names} }
+	cr := func(h, name string, dir bool) COp { return COp{Kind: "create", H: h, Name: name, Dir: dir} }
+	// /d (dir) with /d/f (file holding "abcd"); x,y on /d; fx,fy on /d/f
+	setup := []COp{cr("r0", "d", true), w("r1", "x", "d"), w("r2", "y", "d"), w("r3", "t", "d"), cr("t", "f", false),
+		{Kind: "write", H: "t", Off: 0, Data: "abcd"}, w("x", "fx", "f"), w("y", "fy", "f")}
+	dirOps := func(h string, n string) []COp {
+		return []COp{w(h, n+"1", "f"), w(h, n+"2", ".."), w(h, n+"3"), cr(h, "g", false), cr(h, "f", false), {Kind: "list", H: h}, {Kind: "stat", H: h}, {Kind: "chmod", H: h}, {Kind: "remove", H: h}, {Kind: "clunk", H: h}}
+	}
+	fileOps := func(h string, n string) []COp {
+		return []COp{{Kind: "read", H: h, Off: 0, N: 8}, {Kind: "write", H: h, Off: 1, Data: "XY"}, {Kind: "write", H: h, Off: 4, Data: "Z"}, {Kind: "trunc", H: h, Off: 2}, {Kind: "stat", H: h}, {Kind: "remove", H: h}, {Kind: "clunk", H: h}, w(h, n+"u", "..")}
+	}
+	var out []c18Spec
+	gen := func(tag string, a, b []COp) {
+		for i := range a {
+			for j := i; j < len(b); j++ {
+				out = append(out, c18Spec{Name: fmt.Sprintf("pair/%s/%s|%s", tag, a[i].Kind+fmt.Sprint(a[i].Names, a[i].Name, a[i].Off), b[j].Kind+fmt.Sprint(b[j].Names, b[j].Name, b[j].Off)), Setup: setup, Tasks: [][]COp{{a[i]}, {b[j]}}})
+			}
+		}
+	}
+	gen("dir", dirOps("x", "p"), dirOps("y", "q"))
+	gen("file", fileOps("fx", "p"), fileOps("fy", "q"))
+	gen("mixed", dirOps("x", "p")[3:9], fileOps("fy", "q"))
+	return out
+}
+
+func c18Specs() []c18Spec { return append(c18Hand(), c18Pairs()...) }
+
+func c18Hand() []c18Spec {
 	w := func(h, nw string, names ...string) COp { return COp{Kind: "walk", H: h, New: nw, Names: names} }
 	cr := func(h, name string, dir bool) COp { return COp{Kind: "create", H: h, Name: name, Dir: dir} }
 	return []c18Spec{
